@@ -11,16 +11,16 @@ pkg=$(grep -m1 -o 'copy to: *[A-Za-z0-9_/]*' "$M/demo_test.go" | sed 's/copy to:
 demo="$pkg/zz_seeded_demo_test.go"
 # without the patch: demo passes
 cp "$M/demo_test.go" "$demo"
-go test -count=1 -run TestSeededDemo "./$pkg/" >/tmp/cs_clean.log 2>&1; clean_rc=$?
+go test -count=1 -run TestSeededDemo "./$pkg/" >/tmp/cs_$$_clean.log 2>&1; clean_rc=$?
 rm -f "$demo"
 git apply "$M/patch.diff" || { echo "{\"error\":\"patch does not apply\"}"; exit 2; }
-go build ./... >/tmp/cs_build.log 2>&1; build_rc=$?
+go build ./... >/tmp/cs_$$_build.log 2>&1; build_rc=$?
 # existing suite (client tests bind a fixed port: serialise via flock)
-flock /tmp/seed_suite.lock go test -count=1 ./... >/tmp/cs_suite.log 2>&1; suite_rc=$?
-if [ $suite_rc -ne 0 ] && grep -q "address already in use" /tmp/cs_suite.log; then sleep 5; flock /tmp/seed_suite.lock go test -count=1 ./... >/tmp/cs_suite.log 2>&1; suite_rc=$?; fi
+flock /tmp/seed_suite.lock go test -count=1 ./... >/tmp/cs_$$_suite.log 2>&1; suite_rc=$?
+if [ $suite_rc -ne 0 ] && grep -q "address already in use" /tmp/cs_$$_suite.log; then sleep 5; flock /tmp/seed_suite.lock go test -count=1 ./... >/tmp/cs_$$_suite.log 2>&1; suite_rc=$?; fi
 cp "$M/demo_test.go" "$demo"
-go test -count=1 -run TestSeededDemo "./$pkg/" >/tmp/cs_mut.log 2>&1; mut_rc=$?
+go test -count=1 -run TestSeededDemo "./$pkg/" >/tmp/cs_$$_mut.log 2>&1; mut_rc=$?
 rm -f "$demo"
 git checkout -q -- . ; git clean -qfd -e _out >/dev/null 2>&1
-echo "{\"pkg\":\"$pkg\",\"demo_without_patch_rc\":$clean_rc,\"build_rc\":$build_rc,\"suite_rc\":$suite_rc,\"demo_with_patch_rc\":$mut_rc}"
+rm -f /tmp/cs_$$_*.log 2>/dev/null; echo "{\"pkg\":\"$pkg\",\"demo_without_patch_rc\":$clean_rc,\"build_rc\":$build_rc,\"suite_rc\":$suite_rc,\"demo_with_patch_rc\":$mut_rc}"
 [ $clean_rc -eq 0 ] && [ $build_rc -eq 0 ] && [ $suite_rc -eq 0 ] && [ $mut_rc -ne 0 ]
